@@ -38,12 +38,23 @@ RetypeAll(items, oldf, newf) == [i \in 1..Len(items) |-> Retype(items[i], oldf, 
 
 Put(f, k, v) == [x \in DOMAIN f \cup {k} |-> IF x = k THEN v ELSE f[x]]
 
+\* A source may be a soft resource created on the collection's own *Type (src.shared): it then
+\* follows every extension of that type, like the stored items, until the collection gets a new type.
+ShareUpd(srcs, newf) ==
+    [i \in 1..Len(srcs) |->
+        IF srcs[i].shared
+        THEN [srcs[i] EXCEPT !.fields = newf,
+                             !.vals = [f \in DOMAIN newf |-> IF f \in DOMAIN srcs[i].vals THEN srcs[i].vals[f] ELSE Zero(newf[f])]]
+        ELSE srcs[i]]
+Unshare(srcs) == [i \in 1..Len(srcs) |-> [srcs[i] EXCEPT !.shared = FALSE]]
+
 -----------------------------------------------------------------------------
 (* Results: st = [ctype, items, srcs]; op carries its arguments.           *)
 
 ResSetType(st, op) ==
     [post |-> [st EXCEPT !.ctype = op.typ,
-                         !.items = RetypeAll(st.items, st.ctype.fields, op.typ.fields)],
+                         !.items = RetypeAll(st.items, st.ctype.fields, op.typ.fields),
+                         !.srcs = Unshare(st.srcs)],
      ret |-> "ok"]
 
 ResAdd(st, op) ==
@@ -56,7 +67,8 @@ ResAdd(st, op) ==
                     IF f \in DOMAIN src.fields /\ SameDef(src.fields[f], newf[f])
                     THEN src.vals[f] ELSE Zero(newf[f])]]
     IN [post |-> [st EXCEPT !.ctype.fields = newf,
-                            !.items = Append(RetypeAll(st.items, oldf, newf), item)],
+                            !.items = Append(RetypeAll(st.items, oldf, newf), item),
+                            !.srcs = ShareUpd(st.srcs, newf)],
         ret |-> "ok"]
 
 ResRemove(st, op) ==
@@ -75,7 +87,8 @@ ResAddField(st, op) == \* AddAttr / AddRel: Type.AddAttr / Type.AddRel semantics
         newf == Put(st.ctype.fields, op.name, d)
     IN IF bad THEN [post |-> st, ret |-> "err"]
        ELSE [post |-> [st EXCEPT !.ctype.fields = newf,
-                                 !.items = RetypeAll(st.items, st.ctype.fields, newf)],
+                                 !.items = RetypeAll(st.items, st.ctype.fields, newf),
+                                 !.srcs = ShareUpd(st.srcs, newf)],
              ret |-> "ok"]
 
 \* the caller modifies a resource it added earlier: the stored snapshots do not move
